@@ -278,6 +278,8 @@ type FaultPlan struct {
 	Crashes    bool
 	Skew       bool
 	LongOutage bool // a crashed node may stay down for up to 60 block slots (it then needs a block sync, not a fast switch)
+	Jumps      bool // a node's wall clock is stepped forwards or backwards by up to three block slots (timers keep running)
+	Stalls     bool // a node's process is suspended for up to eight block slots and then resumes where it was
 }
 
 // ScheduleFaults draws fault events over [0, horizon]: partitions with heal, crash + restart of honest nodes,
@@ -294,6 +296,48 @@ func (w *World) ScheduleFaults(plan FaultPlan, horizon time.Duration) {
 		}
 	}
 	hz := int(horizon / time.Millisecond)
+	if plan.Jumps {
+		nj := simkit.Int(t, "njumps", 0, 3)
+		for i := 0; i < nj; i++ {
+			n := s.Nodes[simkit.Int(t, "jumpnode", 0, len(s.Nodes)-1)]
+			at := time.Duration(simkit.Int(t, "jumpat", 0, hz)) * time.Millisecond
+			d := time.Duration(simkit.Int(t, "jumpms", 1, 3*int(w.BlockTime/time.Millisecond))) * time.Millisecond
+			if simkit.Bool(t, "jumpback") {
+				d = -d
+			}
+			if n.IsAdversary {
+				continue
+			}
+			s.At(at, "clock jump "+n.Name, func() {
+				if s.Now()+n.Skew+d < -15*time.Second {
+					return // no clock of the run reads a time before the genesis block's (20 s before the start)
+				}
+				n.Skew += d
+				if d < 0 {
+					s.Stats["clock_jump_backwards"]++
+				} else {
+					s.Stats["clock_jump_forwards"]++
+				}
+			})
+		}
+	}
+	if plan.Stalls {
+		ns := simkit.Int(t, "nstalls", 0, 2)
+		for i := 0; i < ns; i++ {
+			n := s.Nodes[simkit.Int(t, "stallnode", 0, len(s.Nodes)-1)]
+			at := time.Duration(simkit.Int(t, "stallat", 0, hz)) * time.Millisecond
+			dur := time.Duration(simkit.Int(t, "stallms", 500, 8*int(w.BlockTime/time.Millisecond))) * time.Millisecond
+			if n.IsAdversary {
+				continue
+			}
+			s.At(at, "stall "+n.Name, func() {
+				if n.Up && !s.Stalled(n) {
+					n.StalledUntil = s.Now() + dur
+					s.Stats["node_stalled"]++
+				}
+			})
+		}
+	}
 	if plan.Partitions {
 		np := simkit.Int(t, "npartitions", 0, 3)
 		for i := 0; i < np; i++ {
